@@ -105,9 +105,15 @@ func (f *Interface) readOutsidePackets(via ViaSender, packet []byte, rxc *rxCont
 		if !via.IsRelayed {
 			// A relay frame naming an index that is live as a direct tunnel is malformed, not stale. A recv_error
 			// for that index would make the peer tear down a healthy tunnel, do not reflect one.
-			if !isMessageRelay || f.hostMap.QueryIndex(h.RemoteIndex) == nil {
-				f.maybeSendRecvError(via.UdpAddr, h.RemoteIndex)
+			if isMessageRelay && f.hostMap.QueryIndex(h.RemoteIndex) != nil {
+				return
 			}
+			// The index of a handshake we started and have not completed yet: the peer finished its side first and is
+			// already sending. A recv_error would make it tear down the tunnel our handshake is about to complete.
+			if f.handshakeManager != nil && f.handshakeManager.queryIndex(h.RemoteIndex) != nil {
+				return
+			}
+			f.maybeSendRecvError(via.UdpAddr, h.RemoteIndex)
 		}
 		return
 	}
